@@ -27,7 +27,7 @@ CHECKS = {
  "C09": ("exploration", "DESIGN.md §4 C09",
          "deterministic simulation: concurrent client tasks on the real stores under a seeded token scheduler (every lock, channel op, FS step is a scheduling point); recorded histories checked for linearizability with porcupine against a sequential mailbox model; crash/deadlock verdicts of the scheduler; quiescence invariants when size evictions fire; race-mode companion (ThreadSanitizer on the seeded schedules) for the data-race clause",
          "Seeded search over interleavings of 2-4 clients (plus a real retention scan) on mem/file stores with and without cap/maxkb, including mailboxes sharing a lock bucket/hash directory. One seed = one exactly replayable schedule; failures are minimised and replay-verified in fresh processes.",
-         "Pre-emption granularity is the instrumented operation. The 'no data race' clause is decided by the race-mode companion C09R (same workloads in a -race binary with the simulator's hand-off hidden from ThreadSanitizer and Inbucket's own synchronisation published; memory store, DESIGN §11.7). The system-level companion C09S runs SMTP, REST and POP3 actors concurrently on shared (pre-filled) mailboxes of both back-ends with an acknowledged-delivery / acknowledged-deletion oracle. Histories are bounded (<=14 ops + prefill) so porcupine stays tractable; its timeouts count as inconclusive."),
+         "Pre-emption granularity is the instrumented operation. The 'no data race' clause is decided by the race-mode companion C09R (same workloads in a -race binary with the simulator's hand-off hidden from ThreadSanitizer and Inbucket's own synchronisation published; memory store, DESIGN §11.7). The system-level companion C09S runs SMTP, REST and POP3 actors concurrently on shared (pre-filled) mailboxes of both back-ends with an acknowledged-delivery / acknowledged-deletion oracle, and again in race mode (C09SR). Histories are bounded (<=14 ops + prefill) so porcupine stays tractable; its timeouts count as inconclusive."),
  "C16": ("exploration", "DESIGN.md §4 C16",
          "deterministic simulation: operation histories on the real stores/manager/retention scanner with observers on the public extension host; the seeded scheduler decides when every asynchronous event goroutine runs; exactly-once conservation, non-overlap and causal-order oracles at quiescence",
          "Seeded search over operation histories x limit configurations x schedules of the asynchronous event dispatch. At quiescence every id that ever was listed has exactly one stored event, exactly one deleted event iff gone (whatever removed it), no observer invocation overlaps another, stored precedes deleted, stored events of a mailbox arrive in arrival order.",
